@@ -81,7 +81,7 @@ def quiet():
     """The library prints 'Illegal character' / 'sly: Syntax error' lines; sink them."""
     global _DEVNULL
     if _DEVNULL is None:
-        _DEVNULL = open(os.devnull, "w")
+        _DEVNULL = open(os.devnull, "w", encoding=getattr(sys.__stdout__, "encoding", None), errors=getattr(sys.__stdout__, "errors", None))
     o, e = sys.stdout, sys.stderr
     sys.stdout = sys.stderr = _DEVNULL
     try:
@@ -200,6 +200,8 @@ def pmap(work, units, chunk=64, jobs=None, inline_ok=True):
 
 # ---------------------------------------------------------------- results
 def jsonable(x):
+    if isinstance(x, int) and not isinstance(x, bool) and abs(x) >= 2**63:
+        return int_str(x)[:60] + "...(int)" if abs(x) >= 10**60 else x
     if isinstance(x, (str, int, bool)) or x is None:
         return x
     if isinstance(x, float):
@@ -301,8 +303,42 @@ def write_replay(pid: str, v: dict) -> str:
     return path
 
 
+def int_str(v: int) -> str:
+    """decimal digits of an int WITHOUT CPython's int/str digit limit (which is a process-wide setting the library under
+    test might have changed): chunked conversion"""
+    try:
+        return str(v)
+    except ValueError:
+        pass
+    neg, v = v < 0, abs(v)
+    base = 10**1000
+    parts = []
+    while v:
+        v, r = divmod(v, base)
+        parts.append(r)
+    digits = "".join((str(p).rjust(1000, "0") for p in reversed(parts))).lstrip("0") or "0"
+    return ("-" if neg else "") + digits
+
+
+def int_parse(s: str) -> int:
+    try:
+        return int(s)
+    except ValueError:
+        pass
+    neg = s.startswith("-")
+    d = s.lstrip("+-")
+    v = 0
+    for i in range(0, len(d), 1000):
+        chunk = d[i : i + 1000]
+        v = v * 10 ** len(chunk) + int(chunk)
+    return -v if neg else v
+
+
 def short(x, n=300):
-    s = x if isinstance(x, str) else repr(x)
+    try:
+        s = x if isinstance(x, str) else repr(x)
+    except ValueError:  # (repr of a huge int under a lowered digit limit)
+        s = f"<{type(x).__name__} whose repr() raises ValueError>"
     return s if len(s) <= n else s[: n - 20] + f"...(+{len(s) - n + 20})"
 
 
@@ -311,7 +347,7 @@ def enc(v):
     if isinstance(v, bool) or v is None or isinstance(v, str):
         return v
     if isinstance(v, int):
-        return v if abs(v) < 2**53 else {"i": str(v)}
+        return v if abs(v) < 2**53 else {"i": int_str(v)}
     if isinstance(v, float):
         return {"f": repr(v)}
     if isinstance(v, tuple):
@@ -336,7 +372,7 @@ def enc(v):
 def dec(v):
     if isinstance(v, dict):
         if "i" in v:
-            return int(v["i"])
+            return int_parse(v["i"])
         if "f" in v:
             return float(v["f"])
         if "t" in v:
